@@ -581,6 +581,7 @@ class Connection(ExportImport):
                 # adding, then we are adding it implicitly.
 
                 implicitly_adding = self._added.pop(oid, None) is None
+                new = True
 
                 self._creating[oid] = implicitly_adding
                 # Make the object known to _invalidate_creating() even
@@ -591,6 +592,7 @@ class Connection(ExportImport):
                     pass  # wrapped object: handled after the store, below
 
             else:
+                new = False
                 self._modified.append(oid)
 
             p = writer.serialize(obj)  # This calls __getstate__ of obj
@@ -607,7 +609,8 @@ class Connection(ExportImport):
                 blobfilename = obj._uncommitted()
                 if blobfilename is None:
                     assert serial is not None  # See _uncommitted
-                    self._modified.pop()  # not modified
+                    if not new:
+                        self._modified.pop()  # not modified
                     continue
                 try:
                     s = self._storage.storeBlob(oid, serial, p, blobfilename,
